@@ -17,7 +17,7 @@ func init() {
 		ID: "C20", Title: "Zip helpers: lossless round trip and extraction confined to target",
 		Pkgs:      []string{"files"},
 		Run:       runC20,
-		Technique: "static analysis: forward taint from zip entry names to file-creating sinks (with summaries of repository helpers) sanitised only by a dominating containment guard; shape check of the containment predicate; path enumeration of the walk callback with a per-path boolean valuation; must-pass-through of Close between an open and the next iteration / the return; provenance agreement of the walk root with the directories that meet the walked path (go/ssa)",
+		Technique: "static analysis: forward taint from zip entry names to file-creating sinks (with summaries of repository helpers) sanitised only by a dominating containment guard; shape check of the containment predicate; path enumeration of the walk callback with a per-path boolean valuation; must-pass-through of Close between an open and the next iteration / the return; provenance agreement of the walk root with the directories that meet the walked path; taint to every file-system mutator including reads of captured variables at the points a closure runs; must-pass-through of create and copy between two entry acquisitions; element-read-to-return paths of the entry iterator (go/ssa)",
 		Explanation: "R1: no value derived from archive/zip entry names (File.Name / FileHeader.Name, through filepath.Join/Split/Dir/Clean/Base, concatenation, Sprintf, phi) reaches a file-system creating call (os.Create, os.OpenFile, os.Mkdir(All), os.WriteFile, os.Rename, and repository functions whose parameter reaches one) unless the sink is dominated by the true edge of a containment test applied to that value (or to the value it is the Dir of), or - asked per path, with phi nodes resolved to the operand the path selects - every path to the sink either carries no entry-name-derived value in the argument or knows a containment test on it to have succeeded; the test may be a predicate call or the same test spelled out in place (filepath.Rel with err == nil, rel != \"..\" and !HasPrefix(rel, \"..\"+separator) all known on the path); entry names are followed through repository helpers whose result derives from a parameter. " +
 			"R3: the name ZipFolder/ZipWriter gives an archive entry derives from the walked file path only through injective operations (slicing off the source prefix, filepath.Rel, Join, ToSlash, TrimPrefix); cut-set trims, case folding, Replace and Base are rejected - a necessary condition of the lossless round trip. " +
 			"R4: files are created truncating (os.Create, or os.OpenFile with O_TRUNC/O_EXCL). " +
@@ -25,7 +25,8 @@ func init() {
 			"R5: in the function that writes archive entries (closure, method used as walk function; the selection inputs are its captured variables, receiver fields or parameters of type func(string) bool / bool that it only reads) a file reaches the archive write only on paths on which BOTH selection inputs decided so: the filter is nil or was called on the walked path and returned true, and the recursive flag is true or the comparison of the file's directory with the source directory decided 'same directory' (paths enumerated with phi operands resolved per path, so an overwritten flag variable counts as not decided; a repository predicate that is handed the walked path and the inputs counts, when its result is known on the path, for what every one of its own paths returning that result has decided). R6 (for captured variables, parameters - every call site - and receiver fields - every store): a captured directory string that is cut off the walked path by its length, or compared with the walked path's directory, derives from a path-cleaning call (filepath.Walk hands out cleaned paths). R7: nothing reached from UnzipToFolder creates a link or device (os.Symlink, os.Link, ...). R8: directories are created by os.MkdirAll only (ZipFolder stores file entries only, an intermediate folder exists in the archive as a name prefix). " +
 			"R9: in the zip helpers (the functions that touch archive/zip, what they call, their closures) a value with a Close method that is obtained while one entry is handled - in the body of a loop, or in a function that runs once per entry because it is handed over as a value (walk callback, iteration body) or called from such a place - and is not handed on, is closed before the next entry is handled: no path leads from the successful open round the loop to the same open again without a Close that was CALLED (a deferred Close only runs when the function returns), and in a once-per-entry function every path from the successful open to a return that is not a failure passes a called or deferred Close (directly, through a repository helper that closes its parameter, or a closure called/deferred in place); the property quantifies over trees with many files, and a handle per entry that lives until the whole archive is done exhausts the descriptors of the process. " +
 			"R10: in the function that writes archive entries every path that returns without a failure and without having reached the archive write knows one of the reasons the property allows for leaving an entry out: a test of the file-TYPE bits only said it is no regular file (IsDir, Mode().IsDir, !Mode().IsRegular, Mode()&M != 0 with M inside os.ModeType - a mask that also covers permission or attribute bits such as setuid/setgid/sticky says nothing about the kind), the filter was called on the walked path and returned false, the recursive flag is known off AND the directory comparison said 'other directory', or the walk itself reported an error for the entry; a repository predicate whose result is known on the path (also one that is handed only the FileInfo, also the element of a fixed table of predicates) counts for what every one of its paths returning that result knows. " +
-			"R11: every directory string that meets the walked path in that function and the helpers it hands the path to - the base of filepath.Rel, a prefix cut off, the directory the file's directory is compared with - is the root filepath.Walk was given for this callback: the same variable, field or expression (variables and fields assigned once are looked through, a parameter is what the call it was reached through passes), not another value that merely holds the same string for most inputs.",
+			"R11: every directory string that meets the walked path in that function and the helpers it hands the path to - the base of filepath.Rel, a prefix cut off, the directory the file's directory is compared with - is the root filepath.Walk was given for this callback: the same variable, field or expression (variables and fields assigned once are looked through, a parameter is what the call it was reached through passes), not another value that merely holds the same string for most inputs. " +
+			"R12: what R1 asks of the creating calls holds for every call that changes the file system (os.Remove, RemoveAll, Rename, Chmod, Chown, Chtimes, Truncate ... and repository functions whose parameter reaches one): no entry-name-derived value reaches it without a containment test known to have succeeded on it - and a closure that hands a captured variable to such a call either makes the test itself or runs (call sites; for a deferred closure every exit of the function behind the defer statement) only where the value last assigned to the variable has passed the test; a variable assigned from the entry name before the test and read by a deferred clean-up is unchecked at that read. R13: in the function that extracts, every path from the point an entry is obtained to the point the next one is obtained, or to a return that is no failure, passes the creating call named by the entry name and a call that moves the entry's content into the created file (io.Copy/CopyBuffer/CopyN, ReadFrom/WriteTo, Write, os.WriteFile of io.ReadAll; a repository function counts when every one of its own paths to a return that is no failure passes one), unless the path knows the entry is no regular file (kind bits, trailing slash), that the containment test rejected it, or that there is no entry. R14: a function that returns *zip.File, reads elements of a []*zip.File and keeps a cursor (writes state that outlives the call) returns every element it reads: no path from the read of an element to the read of another one or to a return of something else.",
 		NotDecided: "the lossless round trip ZipFolder -> UnzipToFolder as such (equal relative paths and contents for every tree) is a value statement over file trees; injectivity of the name mapping (R3) and the selection clause (R5: both selection inputs decide on every path) are the structural parts decided; symbolic links already present inside the destination.",
 		Trusted:    []string{"archive/zip entry names are attacker controlled", "filepath.Rel / filepath.IsLocal semantics"},
 	})
@@ -458,6 +459,7 @@ func runC20(c *Ctx) {
 			}
 		}
 	}
+	c.zipHardening(fns, env, isEntryName, sinkArgs) // R12, R13, R14 (v_zip*.go)
 	// R2 for tests spelled out in place: the recognised form is filepath.Rel + err == nil + rel != ".." +
 	// !HasPrefix(rel, ".."+separator), which is separator-safe by construction
 	for rc, fn := range usedInline {
